@@ -46,6 +46,8 @@ MUTS = {
                      "        if (!buffer_is_blank(&r->pathinfo)) {\n            rc |= cb(vdata, CONST_STR_LEN(\"PATH_INFO\"),\n                            BUF_PTR_LEN(&r->uri.path));", ["C09"]),
  "cgi-server-name-port": ("src/http_cgi.c", "            const char *colon = strchr(s, ':');\n            if (colon) n = colon - s;", "            const char *colon = strchr(s, ':');\n            if (colon) n = colon - s + 1;", ["C09"]),
  "cgi-remote-port": ("src/http_cgi.c", "li_utostrn(buf, sizeof(buf), sock_addr_get_port(r->dst_addr)));", "li_utostrn(buf, sizeof(buf), 1 + sock_addr_get_port(r->dst_addr)));", ["C09"]),
+ "rewrite-once-repeats": ("src/mod_rewrite.c", "		if (*hctx & REWRITE_STATE_FINISHED) return HANDLER_GO_ON;", "		if (0 && (*hctx & REWRITE_STATE_FINISHED)) return HANDLER_GO_ON;", ["C20"]),
+ "rewrite-loop-limit": ("src/mod_rewrite.c", "		if (((++*hctx) & 0x1FF) > 100) {", "		if (((++*hctx) & 0x1FF) > 300) {", ["C20"]),
  "else-link": ("src/configparser.y", "    C->prev = B;\n    B->next = C;\n    A = C;", "    C->prev = B;\n    A = C;", ["C14"]),
 }
 
